@@ -127,6 +127,10 @@ pub fn run(ctx: &Ctx, rep: &mut Report) {
                 if kind == 0 && l % 5 == 0 {
                     via_fragments(rep, &mut r, &bits, mask, "length-sweep");
                 }
+                if kind == 1 && l % 3 == 0 && !(mon::is_noalloc() && l > 384 * 6) {
+                    // the same through a dressed group (per-line presentation, inert lines between)
+                    gen::run_message_mask(rep, PID, mask, &bits, Via::Group, "length-sweep-group");
+                }
             }
         }
         // header field sweeps: every value of every header field (dac 2^10, fid 2^6, ...)
